@@ -54,6 +54,9 @@ def normalise(tree: ast.Module) -> None:
 def normalise_program(trees: Dict[str, ast.Module], pkgs: Set[str]) -> None:
     for t in trees.values():
         _iso(t)
+    for m, t in trees.items():
+        if not (".tests" in m or m.endswith("tests")):
+            _objects_to_closures(t)
     inlined = False
     for _ in range(4):  # helpers calling helpers
         helpers = {m: _collect_helpers(t) for m, t in trees.items()}
@@ -83,6 +86,212 @@ def normalise_program(trees: Dict[str, ast.Module], pkgs: Set[str]) -> None:
 # ---------------------------------------------------------------------------
 
 EXHAUSTED = "__EXHAUSTED__"
+
+
+def _objects_to_closures(tree: ast.Module) -> None:
+    """w = _C(args) where _C is a small private class of the module (plain methods, an __init__ that only stores fields, fields never re-assigned
+    by the methods) and w is used only as `w.m(...)` / `w.field` inside one function: the fields become locals of that function and the methods
+    nested functions over them (`self.f` -> the local, `self.m(..)` -> `m(..)`, `w.m(..)` -> `m(..)`).  The object never escapes, so nothing else can
+    observe the difference."""
+    classes: Dict[str, ast.ClassDef] = {}
+    for st in tree.body:
+        if isinstance(st, ast.ClassDef) and st.name.startswith("_") and not st.name.startswith("__") and st.name not in anchors() and not st.decorator_list and not st.keywords \
+                and all(isinstance(b, ast.Name) and b.id == "object" for b in st.bases):
+            members = [x for x in st.body if not (isinstance(x, ast.Expr) and isinstance(x.value, ast.Constant))]
+            if members and all(isinstance(x, ast.FunctionDef) and not x.decorator_list and x.args.args and not x.args.vararg and not x.args.kwarg for x in members) \
+                    and all(x.name == "__init__" or not (x.name.startswith("__") and x.name.endswith("__")) for x in members):
+                classes[st.name] = st
+    if not classes:
+        return
+    info: Dict[str, Any] = {}
+    for cname, cd in classes.items():
+        methods = {x.name: x for x in cd.body if isinstance(x, ast.FunctionDef)}
+        init = methods.get("__init__")
+        fields: List[Tuple[str, ast.expr]] = []
+        ok = True
+        if init is not None:
+            sn = init.args.args[0].arg
+            for x in _doc_stripped(init.body):
+                if isinstance(x, ast.AnnAssign) and x.value is not None:
+                    tgt, val = x.target, x.value
+                elif isinstance(x, ast.Assign) and len(x.targets) == 1:
+                    tgt, val = x.targets[0], x.value
+                else:
+                    ok = False
+                    break
+                if not (isinstance(tgt, ast.Attribute) and isinstance(tgt.value, ast.Name) and tgt.value.id == sn) or any(isinstance(n, ast.Name) and n.id == sn for n in ast.walk(val)):
+                    ok = False
+                    break
+                fields.append((tgt.attr, val))
+            if init.args.defaults or init.args.kwonlyargs:
+                ok = False
+        fnames = [f for f, _ in fields]
+        if len(set(fnames)) != len(fnames):
+            ok = False
+        for mname, m in methods.items():
+            if mname == "__init__" or not ok:
+                continue
+            sn = m.args.args[0].arg
+            for n in ast.walk(m):
+                if isinstance(n, ast.Name) and n.id == sn:
+                    pass
+                if isinstance(n, ast.Attribute) and isinstance(n.value, ast.Name) and n.value.id == sn:
+                    if isinstance(n.ctx, (ast.Store, ast.Del)) or (n.attr not in fnames and n.attr not in methods):
+                        ok = False
+                if isinstance(n, (ast.Nonlocal, ast.Global, ast.Yield, ast.YieldFrom, ast.Await, ast.FunctionDef)) and n is not m:
+                    if isinstance(n, (ast.Nonlocal, ast.Global)):
+                        ok = False
+            # self used other than as self.<x>
+            parents = {}
+            for n in ast.walk(m):
+                for c in ast.iter_child_nodes(n):
+                    parents[id(c)] = n
+            for n in ast.walk(m):
+                if isinstance(n, ast.Name) and n.id == sn and not isinstance(parents.get(id(n)), ast.Attribute):
+                    ok = False
+        if ok:
+            info[cname] = (init, fields, methods)
+    if not info:
+        return
+    # the class may only be instantiated (its name appears nowhere else: no isinstance, no annotation that matters at run time is affected)
+    for fn in [n for n in ast.walk(tree) if isinstance(n, ast.FunctionDef)]:
+        own = list(_own_nodes(fn))
+        for st_holder in [fn] + [n for n in own if hasattr(n, "body") and isinstance(getattr(n, "body"), list)]:
+            pass
+        blocks: List[Tuple[List[ast.stmt], int, ast.stmt]] = []
+
+        def find(stmts):
+            for i, st in enumerate(stmts):
+                blocks.append((stmts, i, st))
+                if isinstance(st, (ast.FunctionDef, ast.AsyncFunctionDef, ast.ClassDef)):
+                    continue
+                for fld in ("body", "orelse", "finalbody"):
+                    sub = getattr(st, fld, None)
+                    if isinstance(sub, list) and sub and isinstance(sub[0], ast.stmt):
+                        find(sub)
+                for hd in getattr(st, "handlers", []):
+                    find(hd.body)
+
+        find(fn.body)
+        for block, i, st in blocks:
+            if not (isinstance(st, ast.Assign) and len(st.targets) == 1 and isinstance(st.targets[0], ast.Name) and isinstance(st.value, ast.Call) and isinstance(st.value.func, ast.Name)
+                    and st.value.func.id in info and block is fn.body):
+                continue
+            w = st.targets[0].id
+            init, fields, methods = info[st.value.func.id]
+            all_names = {n.id for n in ast.walk(fn) if isinstance(n, ast.Name)} | {a.arg for a in ast.walk(fn) if isinstance(a, ast.arg)}
+            stores = sum(1 for n in ast.walk(fn) if isinstance(n, ast.Name) and n.id == w and isinstance(n.ctx, (ast.Store, ast.Del)))
+            if stores != 1 or w in _params_of(fn):
+                continue
+            parents: Dict[int, ast.AST] = {}
+            for n in ast.walk(fn):
+                for c in ast.iter_child_nodes(n):
+                    parents[id(c)] = n
+            uses = [n for n in ast.walk(fn) if isinstance(n, ast.Name) and n.id == w and isinstance(n.ctx, ast.Load)]
+            fnames = [f for f, _ in fields]
+            good = True
+            for u in uses:
+                par = parents.get(id(u))
+                if not (isinstance(par, ast.Attribute) and par.value is u and isinstance(par.ctx, ast.Load)):
+                    good = False
+                    break
+                if par.attr in methods and par.attr != "__init__":
+                    g = parents.get(id(par))
+                    if not (isinstance(g, ast.Call) and g.func is par):
+                        good = False
+                        break
+                elif par.attr not in fnames:
+                    good = False
+                    break
+            if not good:
+                continue
+            # bind __init__'s parameters
+            call = st.value
+            if any(isinstance(a, ast.Starred) for a in call.args) or any(k.arg is None for k in call.keywords):
+                continue
+            iparams = [a.arg for a in init.args.args[1:]] if init is not None else []
+            if len(call.args) > len(iparams):
+                continue
+            bound: Dict[str, ast.expr] = dict(zip(iparams, call.args))
+            for k in call.keywords:
+                bound[k.arg] = k.value
+            if set(bound) != set(iparams):
+                continue
+            pre: List[ast.stmt] = []
+            pmap: Dict[str, ast.expr] = {}
+            for q, a in bound.items():
+                if isinstance(a, ast.Constant) or (isinstance(a, ast.Name) and a.id in _params_of(fn) and not any(isinstance(n, ast.Name) and n.id == a.id and isinstance(n.ctx, ast.Store) for n in ast.walk(fn))):
+                    pmap[q] = a
+                else:
+                    tmp = f"{w}_{q}"
+                    if tmp in all_names:
+                        good = False
+                    pre.append(ast.copy_location(ast.Assign(targets=[ast.Name(id=tmp, ctx=ast.Store())], value=a), st))
+                    pmap[q] = ast.Name(id=tmp, ctx=ast.Load())
+            fmap: Dict[str, ast.expr] = {}
+            for f_, val in fields:
+                v2 = _Subst(pmap, {}).visit(copy.deepcopy(val))
+                if isinstance(v2, ast.Constant) or (isinstance(v2, ast.Name) and v2.id in _params_of(fn)):
+                    fmap[f_] = v2  # the field is the caller's own (never re-assigned) value
+                else:
+                    loc = f"{w}_{f_.lstrip('_')}"
+                    if loc in all_names:
+                        good = False
+                    pre.append(ast.copy_location(ast.Assign(targets=[ast.Name(id=loc, ctx=ast.Store())], value=v2), st))
+                    fmap[f_] = ast.Name(id=loc, ctx=ast.Load())
+            mnames: Dict[str, str] = {}
+            for mname in methods:
+                if mname == "__init__":
+                    continue
+                nn = mname if mname not in all_names and mname not in _BUILTINS else f"{w}_{mname}"
+                if nn in all_names:
+                    good = False
+                mnames[mname] = nn
+            if not good:
+                continue
+            defs: List[ast.stmt] = []
+            for mname, m in methods.items():
+                if mname == "__init__":
+                    continue
+                sn = m.args.args[0].arg
+                nf = copy.deepcopy(m)
+                nf.name = mnames[mname]
+                nf.args.args = nf.args.args[1:]
+
+                class S(ast.NodeTransformer):
+                    def visit_Attribute(self, node: ast.Attribute):
+                        if isinstance(node.value, ast.Name) and node.value.id == sn:
+                            if node.attr in fmap:
+                                return ast.copy_location(copy.deepcopy(fmap[node.attr]), node)
+                            if node.attr in mnames:
+                                return ast.copy_location(ast.Name(id=mnames[node.attr], ctx=ast.Load()), node)
+                        return self.generic_visit(node)
+
+                S().visit(nf)
+                # the method's own locals must not shadow the field locals / sibling names
+                loc_m = _locals_of(nf) | set(_params_of(nf))
+                if loc_m & ({v.id for v in fmap.values() if isinstance(v, ast.Name)} | set(mnames.values())):
+                    good = False
+                defs.append(nf)
+            if not good:
+                continue
+
+            class U(ast.NodeTransformer):
+                def visit_Attribute(self, node: ast.Attribute):
+                    if isinstance(node.value, ast.Name) and node.value.id == w and isinstance(node.ctx, ast.Load):
+                        if node.attr in mnames:
+                            return ast.copy_location(ast.Name(id=mnames[node.attr], ctx=ast.Load()), node)
+                        if node.attr in fmap:
+                            return ast.copy_location(copy.deepcopy(fmap[node.attr]), node)
+                    return self.generic_visit(node)
+
+            for j in range(len(block)):
+                if j != i:
+                    block[j] = U().visit(block[j])
+            block[i:i + 1] = pre + defs
+            for x in pre + defs:
+                ast.fix_missing_locations(x)
+            break  # one object per function is enough; blocks are stale now
 
 
 def _strip_casts(tree: ast.Module) -> None:
